@@ -1,4 +1,5 @@
 import FgaVerif.Props.C07
+import FgaVerif.Proofs.MergeOrder
 /-! # C12 — the merge outcome is deterministic and independent of the order of the files
 
     In the port (`Model/Merge.lean`) the outcome is a function of the list of files by construction:
@@ -18,9 +19,53 @@ import FgaVerif.Props.C07
       same rewrite (from `merge_conserves_names` / `merge_conserves_rewrites` of C07): a permutation
       changes nothing but the order of the type definitions, as far as names and rewrites go.
 
-    Not proved: the same for metadata (attribution) and condition bodies, and that the error *list* of a
-    permuted input is a permutation of the original one; both are evaluated on the real code over all
-    permutations of up to four files (thorough tier). -/
+    * `result_full_order_independent` (proof in `Proofs/MergeOrder.lean`) — for files with pairwise
+      distinct names, on success the two results have the same type definitions up to order as whole
+      `TypeDef` values (name, relations with their rewrites *in their order*, metadata: module, file,
+      and the metadata of every relation), **equal** condition maps and the same schema version: a
+      permutation changes nothing but the order of the type definitions.  Hence
+      `typeDef_determined_by_name`: a type definition of the one result and a type definition of the
+      other with the same name are equal.  `conditions_order_independent` (equal condition maps) and
+      `type_attribution_order_independent` (module and file of every type) need no hypothesis on the
+      file names, like the statement about names and rewrites above.
+      Why it holds: the extension table and the text table the first loop builds are key-sorted with
+      one entry per file name, so they are *equal* for a list and its permutations
+      (`collect_extended_perm`, `collect_moduleFiles_perm`); the second loop walks the extension table
+      in file-name order and rewrites the base definition it finds *by name*, so on permuted base
+      definitions it computes permuted results and the same errors (`applyAll_rel`).  No sortedness of
+      the parsed relation lists is needed: the order in which extensions reach a type is the same.
+    * the hypothesis on the file names cannot be dropped under `FilesWF` alone: with two files of the
+      same name the blocks of both are applied in list order, and the examples at the end show a
+      permutation changing the *order of the relations* of a type (extension with unsorted relations) or
+      its *relation metadata* (extension carrying metadata for a relation it does not declare; the
+      `relations.isEmpty` path of `applyExtension` copies all of it, the `addRelations` path only that of
+      the declared relations).  Both inputs satisfy `FilesWF` but not what the listener produces (sorted
+      relations, metadata exactly for the declared relations).  Not proved: that for listener-shaped
+      files (or, for the metadata of the *declared* relations, for `FilesWF` files) order independence
+      holds without the hypothesis on the names.
+
+    The error list under permutation.  The property asks for the same error list on every invocation
+    (determinism, by construction in the port) and, for permutations, only for the same verdict; the
+    error *list* of a permuted input is in general **not** a permutation of the original one, and this
+    is the behaviour of the code, not a defect (examples at the end, all evaluated in the port):
+    * "duplicate type definition" / "duplicate condition" are raised on whichever declaration comes
+      second, so the error names a different file (and position) after a permutation;
+    * not even the messages are invariant: a type defined by a module file and by a file without
+      `module` header gives one error in one order ("duplicate type definition") and two in the other
+      ("file is not a module" and "duplicate type definition"), because only the first definition of a
+      name is examined for its module;
+    * with module files only: of two definitions of a type only the first is registered, so whether an
+      extension clashes with a relation depends on which definition came first — one error in one
+      order, two in the other.
+    What is proved instead, `errors_order_independent`: when the file names are pairwise distinct and
+    **nothing is declared twice** (no type defined twice, no condition declared twice) the error list of
+    a permuted input *is* a permutation of the original one; more precisely the errors of the first
+    loop (syntax errors, "file is not a module") are the per-file lists `fileErrs1` concatenated in the
+    order of the files, and the errors of the second loop ("extended type … does not exist", "relation …
+    already exists on type …", with their files and positions) are the same *list*.  So every order
+    dependence of the error list comes from duplicate declarations.  This needs no well-formedness
+    hypothesis.  Order independence of the verdict and of the non-emptiness of the error list hold
+    unconditionally (above).  The oracles evaluate both over all permutations of up to four files. -/
 namespace FgaVerif.Props.C12
 open FgaVerif.Model FgaVerif.Model.Merge FgaVerif.Props.C07
 
@@ -75,5 +120,166 @@ theorem result_order_independent {fs fs' : List FileIn} (v : String) (hp : fs.Pe
 /-- the examples of Props/C07 exhibit both verdicts under both orders -/
 example : isOk (merge [core, extOk] "1.2") = isOk (merge [extOk, core] "1.2") := by decide
 example : isOk (merge [core, extClash] "1.2") = isOk (merge [extClash, core] "1.2") := by decide
+
+
+/-! ### the whole result -/
+
+/-- **on success a permutation of the files changes nothing but the order of the type definitions**:
+    for files with pairwise distinct names the two results have the same type definitions up to order —
+    whole `TypeDef` values: name, relations (rewrites, in their order), metadata (module, file, metadata
+    of every relation) —, equal condition maps and the same schema version -/
+theorem result_full_order_independent {fs fs' : List FileIn} (v : String) (hp : fs.Perm fs') (wf : FilesWF fs)
+    (hnames : (fs.map (·.name)).Nodup) (m m' : Model) (h : merge fs v = .ok m) (h' : merge fs' v = .ok m') :
+    m.types.Perm m'.types ∧ m.conds = m'.conds ∧ m.schema = m'.schema :=
+  merge_result_perm v hp wf hnames m m' h h'
+
+/-- … so a type definition is determined by its name: type definitions of the two results that have
+    the same name are equal -/
+theorem typeDef_determined_by_name {fs fs' : List FileIn} (v : String) (hp : fs.Perm fs') (wf : FilesWF fs)
+    (hnames : (fs.map (·.name)).Nodup) (m m' : Model) (h : merge fs v = .ok m) (h' : merge fs' v = .ok m')
+    (t t' : TypeDef) (ht : t ∈ m.types) (ht' : t' ∈ m'.types) (hn : t.name = t'.name) : t = t' := by
+  have hperm := (result_full_order_independent v hp wf hnames m m' h h').1
+  have hnd : (m'.types.map (·.name)).Nodup := by
+    have wf' := filesWF_perm hp wf
+    rw [(merge_conserves_names fs' v wf' m' h').1]
+    exact ((merge_ok_iff_conflict_free fs' v wf').1 ⟨m', h'⟩).types
+  exact inj_of_nodup_map (fun t : TypeDef => t.name) m'.types hnd t (hperm.mem_iff.1 ht) t' ht' hn
+
+/-- the condition map of the result does not depend on the order of the files (whatever their names) -/
+theorem conditions_order_independent {fs fs' : List FileIn} (v : String) (hp : fs.Perm fs') (wf : FilesWF fs)
+    (m m' : Model) (h : merge fs v = .ok m) (h' : merge fs' v = .ok m') : m.conds = m'.conds :=
+  merge_conds_perm v hp wf m m' h h'
+
+/-- the module and the file recorded on every type do not depend on the order of the files (whatever
+    their names) -/
+theorem type_attribution_order_independent {fs fs' : List FileIn} (v : String) (hp : fs.Perm fs') (wf : FilesWF fs)
+    (m m' : Model) (h : merge fs v = .ok m) (h' : merge fs' v = .ok m') :
+    (m.types.map (fun t => (t.name, tyAttr t))).Perm (m'.types.map (fun t => (t.name, tyAttr t))) := by
+  rw [merge_attributes_types fs v wf m h, merge_attributes_types fs' v (filesWF_perm hp wf) m' h']
+  exact hp.flatMap_right _
+
+/-- **when nothing is declared twice the error list of a permuted input is a permutation of the
+    original one**: file names pairwise distinct, no type defined twice, no condition declared twice.
+    The first-loop errors are the per-file lists in the order of the files, the second-loop errors
+    (`E2`) are the same list.  (Without the hypotheses this is false, see the examples below.) -/
+theorem errors_order_independent {fs fs' : List FileIn} (v : String) (hp : fs.Perm fs')
+    (hnames : (fs.map (·.name)).Nodup) (htypes : (fs.flatMap fileBaseNames).Nodup)
+    (hconds : (fs.flatMap fileCondNames).Nodup) (es es' : List MergeErr)
+    (h : merge fs v = .errors es) (h' : merge fs' v = .errors es') :
+    es.Perm es' ∧ ∃ E2, es = fs.flatMap fileErrs1 ++ E2 ∧ es' = fs'.flatMap fileErrs1 ++ E2 :=
+  merge_errors_perm v hp hnames htypes hconds es es' h h'
+
+/-! ### non-vacuity: a type extended by two files, merged in two orders -/
+
+def extOwner : FileIn := { name := "own.fga", contents := "module own\nextend type doc\n  relations\n    define owner: [user]", outcome := .ok { schema := "", types := [extDoc "owner"], conds := [] } (some [("doc", 0)]) }
+def grp : FileIn := { name := "grp.fga", contents := "module grp\ntype group", outcome := .ok { schema := "", types := [{ name := "group", relations := [], md := some { relations := [], «module» := "grp" } }], conds := [] } (some []) }
+
+def modelOf : MergeOutcome → Model
+  | .ok m => m
+  | _ => {}
+
+def four : List FileIn := [core, grp, extOk, extOwner]
+def fourRev : List FileIn := [extOwner, extOk, grp, core]
+
+example : isOk (merge four "1.2") = true ∧ isOk (merge fourRev "1.2") = true := by decide
+/-- the type definitions come in the order of the files … -/
+example : (modelOf (merge four "1.2")).types.map (·.name) = ["user", "doc", "group"] := by decide
+example : (modelOf (merge fourRev "1.2")).types.map (·.name) = ["group", "user", "doc"] := by decide
+/-- … `doc` carries the relations of its definition and of both extensions, each with the file that
+    declared it, in either order … -/
+example : (modelOf (merge four "1.2")).types.map (fun t => (t.name, (relMetaOf t).map (fun kv => (kv.1, kv.2.module, kv.2.file)))) =
+    [("user", []), ("doc", [("editor", "ext", "ext.fga"), ("owner", "ext", "own.fga"), ("viewer", "core", "")]), ("group", [])] := by decide
+example : (modelOf (merge fourRev "1.2")).types.map (fun t => (t.name, (relMetaOf t).map (fun kv => (kv.1, kv.2.module, kv.2.file)))) =
+    [("group", []), ("user", []), ("doc", [("editor", "ext", "ext.fga"), ("owner", "ext", "own.fga"), ("viewer", "core", "")])] := by decide
+/-- … and the theorem applies: the whole type definitions are the same up to order -/
+example : (modelOf (merge four "1.2")).types.Perm (modelOf (merge fourRev "1.2")).types :=
+  (result_full_order_independent "1.2" (List.reverse_perm four).symm (filesWFb_sound _ (by decide)) (by decide)
+    _ _ rfl rfl).1
+/-- with one defining file the results are equal -/
+example : merge [core, extOk, extOwner] "1.2" = merge [extOwner, core, extOk] "1.2" := by rfl
+
+
+/-! ### the hypothesis on the file names is needed (under `FilesWF` alone)
+
+    Two files named `x.fga` extend the relation-less type `user`; their blocks are applied in list
+    order.  (These parse results are not of the listener's shape — relations out of order, metadata for
+    an undeclared relation — but they satisfy `FilesWF`.) -/
+
+def mkExt (file : String) (rels : List String) (metas : List String) : FileIn :=
+  { name := file, contents := "",
+    outcome := .ok { schema := "", types := [{ name := "user", relations := rels.map (fun r => (r, Userset.this)),
+                                                md := some { relations := metas.map (fun r => (r, { «module» := "x" })), «module» := "x" } }],
+                     conds := [] } (some [("user", 0)]) }
+
+def extZA : FileIn := mkExt "x.fga" ["z", "a"] ["a", "z"]
+def extM : FileIn := mkExt "x.fga" ["m"] ["m"]
+def extGhost : FileIn := mkExt "x.fga" ["editor"] ["editor", "ghost"]
+def extOwn : FileIn := mkExt "x.fga" ["owner"] ["owner"]
+
+example : filesWFb [core, extZA, extM] = true ∧ filesWFb [core, extGhost, extOwn] = true := by decide
+example : isOk (merge [core, extZA, extM] "1.2") = true ∧ isOk (merge [core, extM, extZA] "1.2") = true := by decide
+/-- unsorted relations in an extension: the order of the relations of `user` depends on the order of the files -/
+example : (modelOf (merge [core, extZA, extM] "1.2")).types.map (fun t => (t.name, AList.keys t.relations)) =
+    [("user", ["m", "z", "a"]), ("doc", ["viewer"])] := by decide
+example : (modelOf (merge [core, extM, extZA] "1.2")).types.map (fun t => (t.name, AList.keys t.relations)) =
+    [("user", ["a", "m", "z"]), ("doc", ["viewer"])] := by decide
+example : ¬ (modelOf (merge [core, extZA, extM] "1.2")).types.Perm (modelOf (merge [core, extM, extZA] "1.2")).types :=
+  fun hp => absurd (hp.map (fun t => (t.name, AList.keys t.relations))) (by decide)
+/-- metadata for an undeclared relation: it survives only when its block is the first to reach the type -/
+example : (modelOf (merge [core, extGhost, extOwn] "1.2")).types.map (fun t => (t.name, AList.keys (relMetaOf t))) =
+    [("user", ["editor", "ghost", "owner"]), ("doc", ["viewer"])] := by decide
+example : (modelOf (merge [core, extOwn, extGhost] "1.2")).types.map (fun t => (t.name, AList.keys (relMetaOf t))) =
+    [("user", ["editor", "owner"]), ("doc", ["viewer"])] := by decide
+example : ¬ (modelOf (merge [core, extGhost, extOwn] "1.2")).types.Perm (modelOf (merge [core, extOwn, extGhost] "1.2")).types :=
+  fun hp => absurd (hp.map (fun t => (t.name, AList.keys (relMetaOf t)))) (by decide)
+/-- with distinct file names the same blocks are applied in file-name order, whatever the list order -/
+example : merge [core, mkExt "y.fga" ["z", "a"] ["a", "z"], extM] "1.2" =
+    merge [extM, mkExt "y.fga" ["z", "a"] ["a", "z"], core] "1.2" := by rfl
+
+/-! ### the error list of a permuted input is not, in general, a permutation of the original one -/
+
+/-- message and file of every error -/
+def msgsOf (o : MergeOutcome) : List (String × String) :=
+  (errorsOf o).map fun
+    | .mod m f _ => (m, f)
+    | .syn e => (e.msg, "")
+
+/-- (a) a duplicate is reported on the declaration that comes second: another file is named -/
+example : msgsOf (merge [core, dupUser] "1.2") = [("duplicate type definition user", "dup.fga")] ∧
+    msgsOf (merge [dupUser, core] "1.2") = [("duplicate type definition user", "core.fga")] := by decide
+example : ¬ (errorsOf (merge [core, dupUser] "1.2")).Perm (errorsOf (merge [dupUser, core] "1.2")) := by decide
+
+def mkDef (file mod : String) (rels : List String) : FileIn :=
+  { name := file, contents := "",
+    outcome := .ok { schema := "", types := [{ name := "t", relations := rels.map (fun r => (r, Userset.this)),
+                                                md := some { relations := rels.map (fun r => (r, { «module» := mod })), «module» := mod } }],
+                     conds := [] } (some []) }
+def extT : FileIn :=
+  { name := "c.fga", contents := "",
+    outcome := .ok { schema := "", types := [{ name := "t", relations := [("editor", .this)],
+                                                md := some { relations := [("editor", { «module» := "c" })], «module» := "c" } }],
+                     conds := [] } (some [("t", 0)]) }
+
+/-- (b) not even the messages: only the first definition of a name is examined for its module -/
+example : msgsOf (merge [mkDef "a.fga" "a" [], mkDef "b.fga" "" []] "1.2") =
+    [("duplicate type definition t", "b.fga")] := by decide
+example : msgsOf (merge [mkDef "b.fga" "" [], mkDef "a.fga" "a" []] "1.2") =
+    [("file is not a module", "b.fga"), ("duplicate type definition t", "a.fga")] := by decide
+/-- (c) module files only: which of two definitions is registered decides whether an extension clashes -/
+example : msgsOf (merge [mkDef "a.fga" "a" ["viewer"], mkDef "b.fga" "b" ["editor"], extT] "1.2") =
+    [("duplicate type definition t", "b.fga")] := by decide
+example : msgsOf (merge [mkDef "b.fga" "b" ["editor"], mkDef "a.fga" "a" ["viewer"], extT] "1.2") =
+    [("duplicate type definition t", "a.fga"), ("relation editor already exists on type t", "c.fga")] := by decide
+
+/-- non-vacuity of `errors_order_independent`: nothing declared twice, three kinds of error -/
+def bad : List FileIn := [extClash, core, noModule, broken, extT]
+example : msgsOf (merge bad "1.2") =
+    [("file is not a module", "plain.fga"), ("mismatched input 'typ'", ""),
+     ("extended type t does not exist", "c.fga"), ("relation viewer already exists on type doc", "ext.fga")] := by decide
+example : msgsOf (merge bad.reverse "1.2") =
+    [("mismatched input 'typ'", ""), ("file is not a module", "plain.fga"),
+     ("extended type t does not exist", "c.fga"), ("relation viewer already exists on type doc", "ext.fga")] := by decide
+example : (errorsOf (merge bad "1.2")).Perm (errorsOf (merge bad.reverse "1.2")) :=
+  (errors_order_independent "1.2" (List.reverse_perm bad).symm (by decide) (by decide) (by decide) _ _ rfl rfl).1
 
 end FgaVerif.Props.C12
